@@ -565,6 +565,42 @@ def new (idna : Bytes → Option Bytes) (ua : Bytes) (address : SocketAddr) (ts 
   | .err k => .err k
   | .crash => .crash
 
+/-- `Url::port_or_known_default` (always some port for `http` / `https`) -/
+def Url.portOrDefault (u : Url) : Nat := u.port.getD u.protocol.defaultPort
+
+/-- the `std::net` address a parsed host literal stands for (`Host::Ipv4(ip)` / `Host::Ipv6(ip)`); a domain has none -/
+def Host.ipAddr : Host → Option IpAddr
+  | .ipv4 n => some (.v4 (UInt8.ofNat (n / 2 ^ 24)) (UInt8.ofNat (n / 2 ^ 16 % 256)) (UInt8.ofNat (n / 256 % 256)) (UInt8.ofNat (n % 256)))
+  | .ipv6 [a, b, c, d, e, f, g, h] =>
+    some (.v6 (UInt16.ofNat a) (UInt16.ofNat b) (UInt16.ofNat c) (UInt16.ofNat d) (UInt16.ofNat e) (UInt16.ofNat f) (UInt16.ofNat g) (UInt16.ofNat h))
+  | _ => none
+
+/-- `HttpClient::from_url(url, timeout_settings, headers)` for an already parsed `http` / `https` URL (for a `Url` argument
+`try_into` is the identity; such a URL always has a host and a port-or-default, so the two `ok_or_else` errors cannot occur).
+An IP literal is the address; a domain goes through `(domain, port).to_socket_addrs()` — the system resolver, a PARAMETER
+(`lookup`; `none` = the lookup fails) — and the FIRST address found is taken (`HostLookup` when there is none).  The host
+text of the URL becomes the `hostname` of the settings; `https` is kept only with the crate's `tls` feature (`tls`), any other
+scheme is treated as `http`.  Then `new`. -/
+def fromUrl (idna : Bytes → Option Bytes) (ua : Bytes) (lookup : Bytes → Nat → Option (List SocketAddr)) (tls : Bool) (url : Url)
+    (ts : Option Timeout) (headers : Option (List (Bytes × Bytes))) : Res Client :=
+  let port := url.portOrDefault
+  let address : Res SocketAddr :=
+    match url.host with
+    | .domain d =>
+      match lookup d port with
+      | some (a :: _) => .ok a
+      | _ => .err .hostLookup
+    | host =>
+      match host.ipAddr with
+      | some ip => .ok ⟨ip, port⟩
+      -- (an IPv6 host of a parsed URL has eight segments)
+      | none => .err .invalidInput
+  match address with
+  | .ok address =>
+    new idna ua address ts ⟨if url.protocol == .https && tls then .https else .http, some url.host.text, headers.getD []⟩
+  | .err k => .err k
+  | .crash => .crash
+
 /-- `ureq::Request::set` (`header::add_header`): a header of the same name (compared as written) is replaced, unless the
 name starts with `x-` / `X-` -/
 def setHeader (hs : List (Bytes × Bytes)) (h : Bytes × Bytes) : List (Bytes × Bytes) :=
